@@ -14,7 +14,9 @@ trap 'cd /repo && git checkout -- . ' EXIT
 cd /verif
 for c in "$@"; do
   echo "=== $c $TIER with $(basename "$P")"
+  cp -f "evidence/$c.json" "/tmp/mutant_run.$$.evidence" 2>/dev/null   # the evidence file must describe the unchanged tree only
   ./check "$c" "$TIER" > /tmp/mutant_run.$$.log 2>&1; rc=$?
+  if [ -f "/tmp/mutant_run.$$.evidence" ]; then mv -f "/tmp/mutant_run.$$.evidence" "evidence/$c.json"; fi
   grep -E "^(VIOLATION|violation kind|INFRA|C[0-9]+ )" /tmp/mutant_run.$$.log | head -8
   echo "exit=$rc"
   rm -f /tmp/mutant_run.$$.log
